@@ -491,6 +491,70 @@ deriving DecidableEq, Repr
 	sb.WriteString("/-- signatures whose selector abi.UnpackRevert decodes into a reason string -/\n")
 	sb.WriteString("def unpackRevertSelectors : List String := " + leanStrs(sels) + "\n\n")
 
+	// --- ApplyMessageWithConfig (ethermint fork): where the response's VmError and Ret come from
+	{
+		vmExpr, retExpr := "?", "?"
+		var assigns, callers []string
+		if fd := c.depFunc("github.com/evmos/ethermint", "x/evm/keeper/state_transition.go", "Keeper", "ApplyMessageWithConfig"); fd != nil && fd.Body != nil {
+			flat := func(n ast.Node) string { return strings.Join(strings.Fields(c.src(n)), " ") }
+			ast.Inspect(fd.Body, func(n ast.Node) bool {
+				if cl, ok := n.(*ast.CompositeLit); ok && strings.HasSuffix(flat(cl.Type), "MsgEthereumTxResponse") {
+					for _, el := range cl.Elts {
+						if kv, ok := el.(*ast.KeyValueExpr); ok {
+							switch flat(kv.Key) {
+							case "VmError":
+								vmExpr = flat(kv.Value)
+							case "Ret":
+								retExpr = flat(kv.Value)
+							}
+						}
+					}
+				}
+				return true
+			})
+			// every assignment to the VmError variable with its enclosing if-condition; every assignment to the variable it reads
+			var walk func(n ast.Node, cond string)
+			walk = func(n ast.Node, cond string) {
+				switch x := n.(type) {
+				case *ast.BlockStmt:
+					for _, st := range x.List {
+						walk(st, cond)
+					}
+				case *ast.IfStmt:
+					walk(x.Body, strings.TrimSpace(cond+" "+flat(x.Cond)))
+					if x.Else != nil {
+						walk(x.Else, strings.TrimSpace(cond+" !("+flat(x.Cond)+")"))
+					}
+				case *ast.ForStmt:
+					walk(x.Body, cond+" for")
+				case *ast.RangeStmt:
+					walk(x.Body, cond+" for")
+				case *ast.AssignStmt:
+					for i, l := range x.Lhs {
+						if flat(l) == vmExpr {
+							rhs := flat(x.Rhs[0])
+							if len(x.Rhs) == len(x.Lhs) {
+								rhs = flat(x.Rhs[i])
+							}
+							assigns = append(assigns, "("+leanStr(cond)+", "+leanStr(rhs)+")")
+						}
+						if flat(l) == "vmErr" && len(x.Rhs) == 1 {
+							if ce, ok := x.Rhs[0].(*ast.CallExpr); ok {
+								callers = append(callers, leanStr(flat(ce.Fun)))
+							}
+						}
+					}
+				}
+			}
+			walk(fd.Body, "")
+		}
+		sb.WriteString("/-- `ApplyMessageWithConfig` (ethermint fork at the replacement of /repo/go.mod): the expressions of the response's\n`VmError` and `Ret` fields, every assignment to the `VmError` variable (enclosing conditions, right-hand side), and the\ninterpreter entry points whose error becomes `vmErr` -/\n")
+		sb.WriteString("def applyMessageVmErrorExpr : String := " + leanStr(vmExpr) + "\n")
+		sb.WriteString("def applyMessageRetExpr : String := " + leanStr(retExpr) + "\n")
+		sb.WriteString("def applyMessageVmErrorAssigns : List (String × String) := " + leanList(assigns) + "\n")
+		sb.WriteString("def applyMessageVmErrSources : List String := " + leanList(callers) + "\n\n")
+	}
+
 	// --- the two helpers of fx-core
 	alias := "vm"
 	if p := c.pkg("x/evm/keeper"); p != nil {
